@@ -39,7 +39,7 @@ template <class It, class P> std::vector<P> drainObj(std::unique_ptr<It> it, P*)
 inline std::string tagsN(const std::vector<NP>& v) { std::ostringstream o; o << "["; for (const auto& p : v) o << (p ? "n" + std::to_string(p->tag) : std::string("null")) << " "; o << "]"; return o.str(); }
 inline std::string tagsE(const std::vector<EP>& v) { std::ostringstream o; o << "["; for (const auto& p : v) o << (p ? "e" + std::to_string(p->tag) : std::string("null")) << " "; o << "]"; return o.str(); }
 
-inline void checkObs(vf::Ctx& c, ObsWorld& W, const GModel& gm, const std::string& w0) {
+inline void checkObs(vf::Ctx& c, ObsWorld& W, const GModel& gm, const std::string& w0, unsigned rot = 0) {
   Obs& o = *W.o; const Obs& co = o; const OModel& m = W.m;
   const std::string w = w0 + " [observer " + m.str() + " on " + gm.str() + "]";
   NP* const nk = nullptr; EP* const ek = nullptr;
@@ -59,7 +59,7 @@ inline void checkObs(vf::Ctx& c, ObsWorld& W, const GModel& gm, const std::strin
       CHECK(gm.nodes.count(id), w << ": model: object on a dead node");
       CHECK(o.getNodeGraphid(p) == id, w << ": getNodeGraphid(n" << tag << ")=" << o.getNodeGraphid(p));
       CHECK(o.getNodeFromGraphid(id) == p && co.getNodeFromGraphid(id) == p, w << ": getNodeFromGraphid(" << id << ") is not n" << tag);
-    } else {
+    } else if (!thin(rot, static_cast<unsigned>(tag), 1, 3)) {
       CHECK(raises([&] { o.getNodeGraphid(p); }), w << ": getNodeGraphid of absent object n" << tag << " did not raise");
     }
     bool hi = m.nIdx.count(tag) > 0;
@@ -68,7 +68,7 @@ inline void checkObs(vf::Ctx& c, ObsWorld& W, const GModel& gm, const std::strin
       Id ix = m.nIdx.at(tag);
       CHECK(o.getNodeIndex(p) == ix, w << ": getNodeIndex(n" << tag << ")=" << o.getNodeIndex(p));
       CHECK(o.hasNode(static_cast<Obs::NodeIndex>(ix)) && o.getNode(ix) == p, w << ": index " << ix << " does not lead back to n" << tag);
-    } else {
+    } else if (!thin(rot, static_cast<unsigned>(tag), 2, 3)) {
       CHECK(raises([&] { o.getNodeIndex(p); }), w << ": getNodeIndex of un-indexed object n" << tag << " did not raise");
     }
   }
@@ -85,7 +85,7 @@ inline void checkObs(vf::Ctx& c, ObsWorld& W, const GModel& gm, const std::strin
       auto objAt = [&](Id n) -> NP { int t; return m.tagOfNode(n, t) ? W.nObj.at(t) : NP(); };
       std::pair<NP, NP> want(objAt(gm.edges.at(id).first), objAt(gm.edges.at(id).second));
       CHECK(ends == want || (!gm.directed && ends == std::make_pair(want.second, want.first)), w << ": getNodes(e" << tag << ") reports the wrong end points");
-    } else {
+    } else if (!thin(rot, static_cast<unsigned>(tag), 3, 3)) {
       CHECK(raises([&] { o.getEdgeGraphid(q); }), w << ": getEdgeGraphid of absent object e" << tag << " did not raise");
     }
     bool hi = m.eIdx.count(tag) > 0;
@@ -94,7 +94,7 @@ inline void checkObs(vf::Ctx& c, ObsWorld& W, const GModel& gm, const std::strin
       Id ix = m.eIdx.at(tag);
       CHECK(o.getEdgeIndex(q) == ix, w << ": getEdgeIndex(e" << tag << ")=" << o.getEdgeIndex(q));
       CHECK(o.hasEdge(static_cast<Obs::EdgeIndex>(ix)) && o.getEdge(ix) == q, w << ": index " << ix << " does not lead back to e" << tag);
-    } else {
+    } else if (!thin(rot, static_cast<unsigned>(tag), 4, 3)) {
       CHECK(raises([&] { o.getEdgeIndex(q); }), w << ": getEdgeIndex of un-indexed object e" << tag << " did not raise");
     }
   }
@@ -201,7 +201,8 @@ inline void checkObs(vf::Ctx& c, ObsWorld& W, const GModel& gm, const std::strin
     // linking edge of every ordered pair of node objects
     for (const auto& kv2 : m.nId) {
       Id n2 = kv2.second; const NP& p2 = W.nObj.at(kv2.first);
-      std::set<Id> ex = gm.from(n, n2); EP got; bool r = raises([&] { got = o.getEdgeLinking(p, p2); });
+      std::set<Id> ex = gm.from(n, n2); if (ex.empty() && thin(rot, n, n2, 6)) continue;
+      EP got; bool r = raises([&] { got = o.getEdgeLinking(p, p2); });
       if (ex.empty()) CHECK(r, wn << " getEdgeLinking(.,n" << kv2.first << ") did not raise although the nodes are not linked");
       else {
         CHECK(!r, wn << " getEdgeLinking(.,n" << kv2.first << ") raised although edge " << show(ex) << " links them");
